@@ -44,10 +44,20 @@ type Thread struct {
 	pend     *pendOp
 	done     bool
 	aborting bool
+	joint    bool // released as one party of a rendez-vous: must park again right after the channel operation
 	vc       []int
 	s        *Exec
 	run      Body
 	ready    chan struct{} // non-nil for spawned children: start point is signalled here
+}
+
+// Now returns the number of scheduler steps executed so far in the current execution (0 when no
+// exploration is running); callable from any code the controlled threads run.
+func Now() int {
+	if x := cur; x != nil {
+		return len(x.Events)
+	}
+	return 0
 }
 
 // Stamp returns the number of scheduler steps executed so far (a logical clock for harness logs).
@@ -205,6 +215,13 @@ func onPoint(kind int, addr any, site string) {
 		op.addr = ci.Chan
 	}
 	switch kind {
+	case vshim.KChanDone:
+		// only the two parties of a rendez-vous run at the same time; each parks here as soon as
+		// its half of the transfer is done, so that everything after it is serialised again
+		if !t.joint {
+			return
+		}
+		t.joint = false
 	case vshim.KUnlock, vshim.KRUnlock:
 		// release operations take effect at once (only one thread runs at a time)
 		x.apply(t, op)
@@ -594,6 +611,7 @@ func runOnce(cfg *Config, prefix []int) *Exec {
 		for _, id := range e {
 			t := x.Threads[id]
 			t.pend = nil
+			t.joint = len(e) > 1
 			t.wake <- false
 		}
 		if !x.waitArrive(len(e)) {
@@ -704,6 +722,8 @@ func KindName(k int) string {
 		return "go"
 	case vshim.KYield:
 		return "yield"
+	case vshim.KChanDone:
+		return "chan-done"
 	}
 	return fmt.Sprint(k)
 }
